@@ -369,9 +369,19 @@ func perturb(p *packages.Package, f *ast.File) int {
 		}
 		return out
 	}
+	skip := map[*ast.BlockStmt]bool{}
 	ast.Inspect(f, func(n ast.Node) bool {
 		switch x := n.(type) {
+		case *ast.SwitchStmt:
+			skip[x.Body] = true
+		case *ast.TypeSwitchStmt:
+			skip[x.Body] = true
+		case *ast.SelectStmt:
+			skip[x.Body] = true
 		case *ast.BlockStmt:
+			if skip[x] {
+				return true
+			}
 			x.List = visit(x.List)
 		case *ast.CaseClause:
 			x.Body = visit(x.Body)
